@@ -48,6 +48,7 @@ ASSUMPTIONS = [
     "an operation that fails under an injected error must leave the target's revision set either as before or - when the error struck after the write group was committed (e.g. while updating the branch tip) - complete; in both cases everything listed must be readable, locks are broken as after a failed process, and the retry must succeed",
     "in 40% of the runs the source is a record-by-record replica of the natively built history WITHOUT one or two merged-in revisions (right-hand parents only): they are ghosts in the source, yet the file versions they introduced and later trees still carry are present there; every text version a target inventory refers to and the source holds must then be in the target",
     "sources with ghost-introduced texts are not fetched into plain knit targets (a knit target cannot park a text delta whose basis lies outside the fetched set, which a ghost in the middle of the per-file ancestry makes possible; fetch then raises RevisionNotPresent on the unchanged tree - legacy format, reported separately)",
+    "check() reports 'inconsistent parents' for a text version whose introducing revision the repository lacks as soon as that text has per-file parents (it expects none because it cannot derive any); such reports are not counted against the target - the text and its parents are identical in the source, where the introducing revision may be present and check() is clean",
     "signatures: a revision fetched by any route must carry the same signature text as in the source",
     "no error injection for knit targets (no write groups, no atomicity claim); the target's check() is required to be clean only when the source's check() is clean (knit sources record per-file parents with revision-graph heads, which check() rejects after a file id was deleted and re-added)",
     "stacked targets: completeness is judged on the stacked repository together with its fallback; in addition the stacked repository alone must hold the parent inventories and new texts of its own revisions (C08's local statement)",
@@ -478,7 +479,7 @@ def execute(sim, plan, _scratch=None):
                 st = t.get_signature_text(r.encode()) if t.has_signature_for_revision_id(r.encode()) else None
                 if ss != st:
                     sim.fail("signature", ["signature", conf, tag], f"{tag}: signature of {r}: source {ss!r} target {st!r}")
-        prob = storesim.check_clean(t) if not src_prob else None
+        prob = storesim.check_clean(t, ignore_ghost_introduced=True) if not src_prob else None
         if prob:
             sim.fail("check", ["check", conf, tag], f"{tag}: {prob}")
         if stacked:
@@ -506,7 +507,11 @@ def execute(sim, plan, _scratch=None):
         import traceback
 
         frames = [f.name for f in traceback.extract_tb(failed.__traceback__) if "/breezy/" in f.filename]
-        sim.fail("op_failed", ["op_failed", conf, plan["op"], f"{type(failed).__name__}:{frames[-1] if frames else '?'}"], f"{plan['op']} of {x} failed without any fault: {type(failed).__name__}: {failed}\n" + "".join(traceback.format_exception(failed))[-1800:])
+        sig_ = ["op_failed", conf, plan["op"], f"{type(failed).__name__}:{frames[-1] if frames else '?'}"]
+        if plan["ids"] and stacked and type(failed).__name__ == "KnitCorrupt" and "inconsistent details in add_records" in str(failed):
+            # InterDifferingSerializer re-adds parent inventories a stacked knit-pack target already holds
+            sig_ = ["op_failed", "ids+stacked-knitpack-target", "parent-inventory-added-twice:KnitCorrupt"]
+        sim.fail("op_failed", sig_, f"{plan['op']} of {x} failed without any fault: {type(failed).__name__}: {failed}\n" + "".join(traceback.format_exception(failed))[-1800:])
     transferred = post_set - pre_set
     if failed is not None:
         sim.probe("op_failed_under_fault")
